@@ -404,27 +404,34 @@ impl PersistBackend for FilePersist {
             return Ok(());
         }
 
-        // Handle WAL based on durability mode
-        match self.config.durability_mode {
-            DurabilityMode::Immediate => {
-                // Write to WAL with immediate sync (safest)
-                let mut wal = self.wal.lock();
-                wal.append_batch(shard, updates)?;
-            }
-            DurabilityMode::Batched => {
-                // Write to WAL without sync (faster, batched durability)
-                let mut wal = self.wal.lock();
-                wal.append_batch_buffered(shard, updates)?;
-            }
-            DurabilityMode::Async => {
-                // Skip WAL entirely for maximum speed (in-memory only until flush).
-                // Data WILL be lost on crash. Only use for ephemeral/reproducible data.
-            }
-        }
-
-        // Add to buffer
+        // Log to the WAL and add to the shard buffer under the shard-map write lock, so that a
+        // concurrent flush of the same shard sees either none or both. flush() writes the buffer
+        // to a batch file and then removes *all* WAL entries of the shard: an update that was
+        // already in the WAL but not yet in the buffer would be dropped from the WAL without being
+        // part of the batch, i.e. an acknowledged write that the next restart does not recover.
+        // Lock order (shards, then wal) is the same as in flush().
         let should_flush = {
             let mut shards = self.shards.write();
+
+            // Handle WAL based on durability mode
+            match self.config.durability_mode {
+                DurabilityMode::Immediate => {
+                    // Write to WAL with immediate sync (safest)
+                    let mut wal = self.wal.lock();
+                    wal.append_batch(shard, updates)?;
+                }
+                DurabilityMode::Batched => {
+                    // Write to WAL without sync (faster, batched durability)
+                    let mut wal = self.wal.lock();
+                    wal.append_batch_buffered(shard, updates)?;
+                }
+                DurabilityMode::Async => {
+                    // Skip WAL entirely for maximum speed (in-memory only until flush).
+                    // Data WILL be lost on crash. Only use for ephemeral/reproducible data.
+                }
+            }
+
+            // Add to buffer
             let state = shards
                 .entry(shard.to_string())
                 .or_insert_with(|| ShardState {
